@@ -190,6 +190,82 @@ theorem C27_partial (c : Cfg) (acts : List Act) (hh : c.hasHandler = true)
   · rw [hslack] at h; simp at h
   · unfold NoUnhandled at hu; rw [hu] at h; simp at h
 
+/-! ### what fix 305110c guarantees: a close that no submit call straddles loses nothing -/
+
+theorem run_append (c : Cfg) (s : St) (a b : List Act) : run c s (a ++ b) = run c (run c s a) b := by
+  simp [run, List.foldl_append]
+
+theorem done_step (c : Cfg) {s : St} (a : Act) (h : s.done = true) : (step c s a).done = true := by
+  cases a with
+  | begin m => simp only [step]; split <;> exact h
+  | cancel t => exact h
+  | sub t pick => simp only [step]; rw [(subStep_frame c s t pick).2.2.2.2.2.1]; exact h
+  | close => rfl
+  | wstep pick ok => simp only [step]; rw [(wStep_core c s pick ok).2.2.2]; exact h
+  | fdrain => simp only [step, fdrainStep]; split <;> exact h
+  | sysdown => exact h
+
+theorem afterClose_inv (c : Cfg) (hmb : 0 < c.maxBatch) (post : List Act) {s : St}
+    (hn : NoRace s) (hc : Closing s) (he : ExitClean s) (hd : s.done = true) :
+    ExitClean (run c s post) := by
+  induction post generalizing s with
+  | nil => exact he
+  | cons a as ih =>
+    exact ih (noRace_step c a hn (fun _ => hn hd)) (closing_step c a hc)
+      (exitClean_step c hmb a hn hc he) (done_step c a hd)
+
+/-- CLOSE IS COMPLETE (for every schedule `pre ++ close :: post`): if this is the first close and at
+    that moment every submit call in progress is still before its `done` pre-check, then whenever the
+    writer goroutine has exited the channel is empty — every message accepted before the close has
+    been flushed (delivered or handed to the error handler).  The guard excludes exactly the racing
+    window of finding C27-F3. -/
+theorem C27_close_complete (c : Cfg) (pre post : List Act) (hmb : 0 < c.maxBatch)
+    (hfirst : (final c pre).done = false) (hpre : ∀ p ∈ (final c pre).pend, p.pc = .pre) :
+    (final c (pre ++ .close :: post)).wpc = .exited → (final c (pre ++ .close :: post)).chan = [] := by
+  intro hw
+  have hrun : final c (pre ++ .close :: post) = run c (step c (final c pre) .close) post := by
+    simp [final, run, List.foldl_append]
+  rw [hrun] at hw ⊢
+  have hc0 : Closing (final c pre) := closing_run c pre closing_init
+  have hn0 : NoRace (final c pre) := by intro hd; rw [hfirst] at hd; cases hd
+  have he1 : ExitClean (step c (final c pre) .close) := by
+    intro hx
+    have : (final c pre).done = true := by
+      rcases hx with hx | hx
+      · exact hc0 (Or.inr (Or.inr hx))
+      · exact hc0 (Or.inr (Or.inl hx.1))
+    rw [hfirst] at this; cases this
+  have := afterClose_inv c hmb post (noRace_step c .close hn0 (fun _ => hpre))
+    (closing_step c .close hc0) he1 rfl
+  exact this (Or.inl hw)
+
+/-- SECOND PARTIAL THEOREM (schedules WITH close): under the guard of `C27_close_complete` and with no
+    handler drop, every accepted message of every quiescent state was delivered or dead-lettered. -/
+theorem C27_partial_close (c : Cfg) (pre post : List Act) (hh : c.hasHandler = true) (hmb : 0 < c.maxBatch)
+    (hfirst : (final c pre).done = false) (hpre : ∀ p ∈ (final c pre).pend, p.pc = .pre)
+    (hslack : (final c (pre ++ .close :: post)).dropped = [])
+    (hq : (final c (pre ++ .close :: post)).quiescent = true) :
+    accounted (final c (pre ++ .close :: post)).log (final c (pre ++ .close :: post)).delivered
+      (final c (pre ++ .close :: post)).dead = true := by
+  have hl := C27_loss_sites c (pre ++ .close :: post) hq
+  have hu : NoUnhandled (final c (pre ++ .close :: post)) := noUnhandled_run c hh _ rfl
+  have hcc := C27_close_complete c pre post hmb hfirst hpre
+  simp only [accounted, List.all_eq_true, Bool.or_eq_true, List.contains_iff_mem]
+  intro m hm
+  rcases hl m hm with h | h | h | h | h
+  · exact Or.inl h
+  · exact Or.inr h
+  · have := hcc h.2; rw [this] at h; simp at h
+  · rw [hslack] at h; simp at h
+  · unfold NoUnhandled at hu; rw [hu] at h; simp at h
+
+/-- the guards of `C27_partial_close` are met by the close-with-pending-messages run (the former
+    loss witness): nothing in progress at the close, two messages queued, both delivered -/
+example :
+    (final cfg1 (witnessClose.take 6)).done = false ∧ (final cfg1 (witnessClose.take 6)).pend = [] ∧
+    witnessClose = witnessClose.take 6 ++ .close :: witnessClose.drop 7 ∧
+    (final cfg1 witnessClose).dropped = [] ∧ (final cfg1 witnessClose).quiescent = true := by decide
+
 /-- the guards of `C27_partial` are satisfiable by a run with a failed batch, a blocked sender and
     batching: two threads, a failure, the fan-out drains — quiescent, not closed, nothing dropped -/
 example :
@@ -204,5 +280,8 @@ example :
     actor/remote_server.go on every run): with size 0 every failed batch would be dropped -/
 theorem C27_fq_has_slack : 0 < Gen.C27.coalescedFailureQueueSize ∧ 0 < Gen.C27.remoteSendCoalescingMaxBatch := by
   decide
+
+/-- the model's fan-out capacity is the source constant (regenerated on every run) -/
+theorem C27_fq_cap_tie : Gen.C27.coalescedFailureQueueSize = (sysFanoutCap : Int) := by decide
 
 end GoaktVerif.C27
